@@ -1793,7 +1793,7 @@ func init() {
 		// depends on the selection state only (= C04 R04i): a node that a private shortcut declines to mark stays linked
 		// under its parent for ever (seed C17-7: attribute-only filters decided at the start tag)
 		if c.CountRule("R17f") == 0 {
-			importRules(c, "C04", map[string]string{"R04i": "R17f"})
+			importRules(c, "C04", map[string]string{"R04i": "R17f", "R04n": "R17f"})
 			c.Floor("R17f", 6, "marking / delivering / rejecting decisions of the two stream readers")
 		}
 	})
@@ -2377,7 +2377,7 @@ func init() {
 		// from earlier records (seed C10-12: the nesting depth of the first candidate) makes the records of a stream depend
 		// on what preceded them
 		if c.CountRule("R10p") == 0 {
-			importRules(c, "C04", map[string]string{"R04i": "R10p"})
+			importRules(c, "C04", map[string]string{"R04i": "R10p", "R04n": "R10p"})
 			c.Floor("R10p", 6, "marking / delivering / rejecting decisions of the two stream readers")
 		}
 	})
